@@ -19,6 +19,11 @@ fn buf(data: &[u8]) -> ffi::Buffer {
 fn empty() -> ffi::Buffer {
     ffi::Buffer { ptr: std::ptr::null(), len: 0 }
 }
+static SENTINEL: [u8; 5] = *b"STALE";
+/// an output buffer that already designates something: a successful call must replace it
+fn stale() -> ffi::Buffer {
+    ffi::Buffer { ptr: SENTINEL.as_ptr(), len: SENTINEL.len() }
+}
 fn read(b: &ffi::Buffer) -> Vec<u8> {
     if b.len == 0 { vec![] } else { unsafe { std::slice::from_raw_parts(b.ptr, b.len) }.to_vec() }
 }
@@ -85,8 +90,8 @@ impl LockCtx {
             ("set_next", 3) => { let d = fr_to_bytes_le(&parse_fr(w[2])?); (flag(ffi::set_next_leaf(a, &buf(&d))), res(b.set_next_leaf(Cursor::new(d.clone())))) }
             ("delete", 3) => { let i = parse_usize(w[2])?; (flag(ffi::delete_leaf(a, i)), res(b.delete_leaf(i))) }
             ("set_tree", 3) => { let h = parse_usize(w[2])?; (flag(ffi::set_tree(a, h)), res(b.set_tree(h))) }
-            ("root", 2) => { let mut ob = empty(); let ok = ffi::get_root(a, &mut ob); let mut c = Cursor::new(Vec::new()); let r = b.get_root(&mut c); (outb(ok, &ob), outc(r, c)) }
-            ("get_leaf", 3) => { let i = parse_usize(w[2])?; let mut ob = empty(); let ok = ffi::get_leaf(a, i, &mut ob); let mut c = Cursor::new(Vec::new()); let r = b.get_leaf(i, &mut c); (outb(ok, &ob), outc(r, c)) }
+            ("root", 2) => { let mut ob = stale(); let ok = ffi::get_root(a, &mut ob); let mut c = Cursor::new(Vec::new()); let r = b.get_root(&mut c); (outb(ok, &ob), outc(r, c)) }
+            ("get_leaf", 3) => { let i = parse_usize(w[2])?; let mut ob = stale(); let ok = ffi::get_leaf(a, i, &mut ob); let mut c = Cursor::new(Vec::new()); let r = b.get_leaf(i, &mut c); (outb(ok, &ob), outc(r, c)) }
             ("get_proof", 3) => { let i = parse_usize(w[2])?; let mut ob = empty(); let ok = ffi::get_proof(a, i, &mut ob); let mut c = Cursor::new(Vec::new()); let r = b.get_proof(i, &mut c); (outb(ok, &ob), outc(r, c)) }
             ("leaves_set", 2) => (format!("{}", ffi::leaves_set(a)), format!("{}", b.leaves_set())),
             ("set_leaves_from", 4) => { let i = parse_usize(w[2])?; let d = vec_fr_to_bytes_le(&list_fr(w[3])?).ok()?; (flag(ffi::set_leaves_from(a, i, &buf(&d))), res(b.set_leaves_from(i, Cursor::new(d.clone())))) }
@@ -106,7 +111,7 @@ impl LockCtx {
                 }
             }
             ("meta_set", 3) => { let d = parse_bytes(w[2])?; (flag(ffi::set_metadata(a, &buf(&d))), res(b.set_metadata(&d))) }
-            ("meta_get", 2) => { let mut ob = empty(); let ok = ffi::get_metadata(a, &mut ob); let mut c = Cursor::new(Vec::new()); let r = b.get_metadata(&mut c); (outb(ok, &ob), outc(r, c)) }
+            ("meta_get", 2) => { let mut ob = stale(); let ok = ffi::get_metadata(a, &mut ob); let mut c = Cursor::new(Vec::new()); let r = b.get_metadata(&mut c); (outb(ok, &ob), outc(r, c)) }
             ("flush", 2) => (flag(ffi::flush(a)), res(b.flush())),
             ("prove_req", 3) | ("prove_wit", 3) | ("prove_raw", 3) => {
                 let d = parse_bytes(w[2])?;
@@ -129,17 +134,27 @@ impl LockCtx {
                 }
                 (strip_proof(outb(ok, &ob)), strip_proof(outc(r, c)))
             }
+            // the verdict pointer is pre-set once to `true` and once to `false`: a successful call must overwrite it either way
             ("verify", _) | ("verify_rln", _) if w.len() >= 3 => {
                 let d = parse_bytes(w[2])?;
-                let mut v = false;
-                if w[1] == "verify" { let ok = ffi::verify(a, &buf(&d), &mut v); (verd_f(ok, v), verd(b.verify(Cursor::new(d.clone())))) }
-                else { let ok = ffi::verify_rln_proof(a, &buf(&d), &mut v); (verd_f(ok, v), verd(b.verify_rln_proof(Cursor::new(d.clone())))) }
+                let (mut v1, mut v2) = (true, false);
+                let (ok1, ok2) = if w[1] == "verify" { (ffi::verify(a, &buf(&d), &mut v1), ffi::verify(a, &buf(&d), &mut v2)) }
+                    else { (ffi::verify_rln_proof(a, &buf(&d), &mut v1), ffi::verify_rln_proof(a, &buf(&d), &mut v2)) };
+                if ok1 != ok2 || (ok1 && v1 != v2) {
+                    return Some(format!("DIFF verdict depends on the previous content of the verdict pointer: preset true -> ({},{}) preset false -> ({},{})", ok1, v1, ok2, v2));
+                }
+                if w[1] == "verify" { (verd_f(ok1, v1), verd(b.verify(Cursor::new(d.clone())))) }
+                else { (verd_f(ok1, v1), verd(b.verify_rln_proof(Cursor::new(d.clone())))) }
             }
             ("verify_roots", _) if w.len() >= 4 => {
                 let (d, r) = (parse_bytes(w[2])?, parse_bytes(w[3])?);
-                let mut v = false;
-                let ok = ffi::verify_with_roots(a, &buf(&d), &buf(&r), &mut v);
-                (verd_f(ok, v), verd(b.verify_with_roots(Cursor::new(d.clone()), Cursor::new(r.clone()))))
+                let (mut v1, mut v2) = (true, false);
+                let ok1 = ffi::verify_with_roots(a, &buf(&d), &buf(&r), &mut v1);
+                let ok2 = ffi::verify_with_roots(a, &buf(&d), &buf(&r), &mut v2);
+                if ok1 != ok2 || (ok1 && v1 != v2) {
+                    return Some(format!("DIFF verdict depends on the previous content of the verdict pointer: preset true -> ({},{}) preset false -> ({},{})", ok1, v1, ok2, v2));
+                }
+                (verd_f(ok1, v1), verd(b.verify_with_roots(Cursor::new(d.clone()), Cursor::new(r.clone()))))
             }
             ("recover", 4) => {
                 let (d1, d2) = (parse_bytes(w[2])?, parse_bytes(w[3])?);
